@@ -21,6 +21,12 @@ func init() {
 
 func c02() []*Ob {
 	return []*Ob{
+		{Prop: "C02", ID: "C02.17", Engine: "LOCK(one hold)", Floor: 1,
+			Desc:  "a search sees every acknowledged posting: the queued LIDs of a token are taken under the merge mutex (shared rule with C05.13) — a reader that took the queue and is delayed in front of the mutex leaves the next reader with an empty queue and a stale list: `tok` misses documents and `NOT tok` returns documents that have the token",
+			Check: shared("C05.13")},
+		{Prop: "C02", ID: "C02.18", Engine: "INDEX(guard strictness)", Floor: 30,
+			Desc:  "the position table of a search is guarded by its own length: an element read is never protected only by a comparison with the length of a sibling field (shared rule with C07.10) — inverser.Inverse refusing keys above len(values) instead of len(inversion) drops the LIDs of a fully indexed, acknowledged bulk whenever an earlier bulk is still half indexed",
+			Check: shared("C07.10")},
 		{Prop: "C02", ID: "C02.16", Engine: "SHAPE(dedup on entry)", Floor: 1,
 			Desc:  "a document is in a token's list once: in frac.mergeSorted the parameter fed from TokenLIDs.getQueuedLIDs (the queue holds one entry per occurrence of the token, so a LID can be queued twice) is never appended to the result in spread form, and each single element of it is appended behind an (in)equality test — a 'the batch is newer than everything merged, just put it in front' fast path keeps the repeat: matches+1 in totals, aggregations and histograms, and the duplicate is sealed",
 			Check: func(c *Ctx) { queuedLIDsEnterOneByOne(c) }},
